@@ -35,6 +35,7 @@ var c09Entries = []string{
 
 // c09Case is one (medium, entry point, options, delivery) execution.
 type c09Result struct {
+	apiCalls  int // library calls the driver made: each may carry a fixed decoding overhead
 	panicV    any
 	alloc     uint64
 	calls     int
@@ -59,7 +60,20 @@ func runEntry(entry string, data []byte, profile string, del sim.Delivery, opts 
 	o := opts.Options()
 	limit := len(data) + 16
 	prevMax := rootutil.MaxAllowedSectionSize
-	defer func() { rootutil.MaxAllowedSectionSize = prevMax; res.calls = core.Calls }()
+	defer func() {
+		rootutil.MaxAllowedSectionSize = prevMax
+		res.calls = core.Calls
+		switch entry {
+		case "readonly", "openreadable":
+			res.apiCalls = 3*len(probeKeys) + 4
+		case "newreader":
+			res.apiCalls = 6
+		case "resume:rw", "resume:sc":
+			res.apiCalls = 2*len(probeKeys) + 4
+		default:
+			res.apiCalls = 2
+		}
+	}()
 	if opts.MaxSection > 0 {
 		rootutil.MaxAllowedSectionSize = uint(opts.MaxSection)
 	}
@@ -253,6 +267,7 @@ func allocBound(opts ReadOpts, n int) uint64 {
 const (
 	c09PerByte = 1024
 	c09Slack   = 1 << 20
+	c09PerCall = 32 << 10 // fixed overhead allowed per library call of a multi-call driver (a header decode is ~10 KiB)
 )
 
 var c09Announce *os.File
@@ -298,10 +313,10 @@ func runC09Case(t *Trace, l *Layout, data []byte, st *Stats) *Violation {
 	if el > 10*time.Second {
 		return viol("medium/nontermination/"+loc, "%s took %v on a %d-byte input", ms.Entry, el, len(data))
 	}
-	if b := allocBound(ms.Opts, len(data)); res.alloc > b {
+	if b := allocBound(ms.Opts, len(data)) + uint64(res.apiCalls)*c09PerCall; res.alloc > b {
 		// identify the allocating site: re-run the case with full allocation profiling
 		site := allocSite(func() { runEntry(ms.Entry, data, ms.Profile, ms.Del, ms.Opts, ms.Choices, probes, tmp) })
-		return viol("medium/over-allocation/via:"+site, "%s allocated %d bytes on a %d-byte input (%v), mostly in %s; bound is header limit + section limit + %d*len + %d = %d", ms.Entry, res.alloc, len(data), ms.Muts, site, c09PerByte, c09Slack, b)
+		return viol("medium/over-allocation/via:"+site, "%s allocated %d bytes on a %d-byte input (%v), mostly in %s; bound is header limit + section limit + %d*len + %d + %d per library call = %d", ms.Entry, res.alloc, len(data), ms.Muts, site, c09PerByte, c09Slack, c09PerCall, b)
 	}
 	if res.alloc > uint64(64*len(data)+256<<10) {
 		st.Probe("c09:alloc-above-64x")
@@ -649,6 +664,7 @@ func allocSite(f func()) string {
 				fn = strings.TrimPrefix(fn, "github.com/ipld/go-car/v2/")
 				fn = strings.TrimPrefix(fn, "github.com/ipld/go-car/")
 				fn = strings.TrimPrefix(fn, "github.com/ipfs/")
+				fn = strings.TrimPrefix(fn, "github.com/")
 				return fn
 			}
 		}
